@@ -203,3 +203,45 @@ package font
 //@     step next_code: currentCode == (len(hex) == 0 ? prev(currentCode) : uint32(prev(currentCode) + 1))
 //@     step target_maps_current_code: len(hex) > 0 && !hexToUnicode$1(hex) && prev(currentCode) <= endCode ==> has(cm.charMappings, prev(currentCode)) && sameseq(cm.charMappings[prev(currentCode)], hexToUnicode(hex))
 //@     step other_codes_untouched: forall k uint32 :: {cm.charMappings[k]} k != prev(currentCode) ==> has(cm.charMappings, k) == has(prev(cm.charMappings), k) && (has(cm.charMappings, k) ==> cm.charMappings[k] == prev(cm.charMappings)[k])
+
+// ---- C02: the sfnt table directory is read from the file; every table slice stays inside the font program ----
+//@ func (*TrueTypeFont) parseTrueTypeTables results (err)
+//@   property C02
+//@   requires !isnil(tt) && !isnil(tt.Tables)
+// a font program of 4 GiB or more is out of scope (a decoded stream of that size does not fit the allocation budget of
+// Stream.Decode); without the bound the uint32 sum entry.Offset+entry.Length may wrap although the int sum is in range
+//@   requires len(tt.FontProgram) < 4294967296
+//@   loop 0:
+//@     invariant 0 <= i
+//@     invariant len(tt.FontProgram) < 4294967296
+//@     invariant !isnil(tt) && !isnil(tt.Tables)
+//@     decreases offsetTable.NumTables - i
+
+//@ func (*TrueTypeFont) parseHmtxTable results (err)
+//@   property C02
+//@   requires !isnil(tt)
+//@   loop 0:
+//@     invariant 0 <= i
+//@     decreases numberOfHMetrics - i
+
+//@ func (*TrueTypeFont) parseCmapTable results (err)
+//@   property C02
+//@   requires !isnil(tt)
+//@   loop 0:
+//@     invariant 0 <= i
+//@     decreases numTables - i
+
+// at most 32767 segments of at most 65536 codes each: bounded work and allocation
+//@ func (*TrueTypeFont) parseCmapFormat4 results (err)
+//@   property C02
+//@   requires !isnil(tt) && !isnil(tt.cmapTable)
+//@   callsite make(k) requires k <= 32767
+//@   loop 0:
+//@     invariant len(endCode) == segCount
+//@   loop 1:
+//@     invariant len(endCode) == segCount && len(startCode) == segCount
+//@   loop 2:
+//@     invariant len(endCode) == segCount && len(startCode) == segCount && !isnil(tt.cmapTable)
+//@   loop 3:
+//@     invariant len(endCode) == segCount && len(startCode) == segCount && !isnil(tt.cmapTable) && c >= 0
+//@     decreases endCode[i] + 1 - c
